@@ -102,6 +102,12 @@ Concat == IsEv("concat") /\ E.exc = "" /\ Upd(S \o q[E.src])
 ConcatV == IsEv("concatv") /\ E.exc = "" /\ Upd(S \o E.vals)
 (* the operand is another kind of iterable (Tree, Table, Slice, Filter) over the same element type: exactly what it yields *)
 (* (E.vals = its own forward iteration) arrives, in that order                                                            *)
+(* temporary containers of this element type overwritten from sequences of other element types and sizes, then deleted: *)
+(* no exception, every live sequence as before, and (Mode own) the ledger balanced: each element finalised exactly once  *)
+XAssign == /\ IsEv("xassign") /\ E.exc = ""
+           /\ AllProjOK(E, q, kind) \/ Mode = "own"
+           /\ OwnOK(E) \/ Mode # "own"
+           /\ UNCHANGED <<q, kind, sig>>
 AssignIt == IsEv("assignit") /\ E.exc = "" /\ Upd(E.vals)
 ConcatIt == IsEv("concatit") /\ E.exc = "" /\ Upd(S \o E.vals)
 ResizeOk == /\ IsEv("resize") /\ Resized(K, S, E.n, 0).ok /\ E.exc = ""
@@ -131,7 +137,7 @@ Expected(w) ==
 Bad == IsEv("bad") /\ Fails(Expected(E.what))
 
 Next == \/ Reset \/ End \/ New \/ Push \/ PushSame \/ PopOk \/ PopFail \/ PushAtOk \/ PushAtFail \/ PopAtOk \/ PopAtFail
-        \/ SetOk \/ SetFail \/ GetOk \/ GetFail \/ RemOk \/ RemFail \/ MemEv \/ Concat \/ ConcatV \/ AssignIt \/ ConcatIt \/ ResizeOk \/ ResizeFail
+        \/ SetOk \/ SetFail \/ GetOk \/ GetFail \/ RemOk \/ RemFail \/ MemEv \/ Concat \/ ConcatV \/ AssignIt \/ ConcatIt \/ XAssign \/ ResizeOk \/ ResizeFail
         \/ SortEv \/ SortUnsupported \/ SortByGt \/ SortByUnsupported \/ Assign \/ Copy \/ Del \/ Bad
 
 Spec == Init /\ [][Next]_vars
